@@ -101,12 +101,13 @@ class BaseGrid2D(BaseGrid):
         fn = RegularGridInterpolator(
             points=(zaxis, xaxis), values=self._grid, method=method, bounds_error=False,
         )
+        old_shape = self.shape
         self._grid = fn([[z, x] for z, x in zip(Z.ravel(), X.ravel())]).reshape(
             new_shape
         )
 
         self._gridsize = tuple(
-            a * b / c for a, b, c in zip(self.gridsize, self.shape, new_shape)
+            a * b / c for a, b, c in zip(self.gridsize, old_shape, new_shape)
         )
 
     def smooth(self, sigma):
@@ -190,12 +191,13 @@ class BaseGrid3D(BaseGrid):
             method=method,
             bounds_error=False,
         )
+        old_shape = self.shape
         self._grid = fn(
             [[z, x, y] for z, x, y in zip(Z.ravel(), X.ravel(), Y.ravel())]
         ).reshape(new_shape)
 
         self._gridsize = tuple(
-            a * b / c for a, b, c in zip(self.gridsize, self.shape, new_shape)
+            a * b / c for a, b, c in zip(self.gridsize, old_shape, new_shape)
         )
 
     def smooth(self, sigma):
